@@ -47,7 +47,9 @@ def check_case(rule_name, attrs):
     case = {"rule": rule_name, "attrs": attrs}
     exp = expected(rule_name, attrs)
     res = build.outcome(rule_name, lambda: build.make_node(rule_name, attrs=attrs))
-    ff, cc = res
+    ff, cc = res[0], res[1]
+    if len(res) > 2 and res[2][1]:
+        raise Violation("collecting-depends-on-prior-list-content", "into a list that already holds an earlier error: " + res[2][1], case)
     if ff[0] == "EXC":
         raise Violation("failfast-foreign-exception", f"fail-fast raised {ff[1]}", case)
     if cc[0] == "EXC":
@@ -123,12 +125,19 @@ def assignments(rule_name):
         # absent, each listed value, an unlisted value, and the empty string (present, but falsy)
         vals = [None] + (list(s[1:]) + [UNLISTED] + ([""] if "" not in s[1:] else []) if len(s) > 1 else ["v", ""])
         opts.append([(a, v) for v in vals])
+    # foreign attribute: none, a made-up name, and every name that OTHER rules declare but this one does not
+    elsewhere = sorted({a for r in R.rules_dict.values() for a in r[0]} - set(spec))
     for combo in itertools.product(*opts):
-        for foreign in (False, True):
+        for foreign in (None, FOREIGN_ATTR):
             attrs = {a: v for a, v in combo if v is not None}
             if foreign:
-                attrs[FOREIGN_ATTR] = "1"
+                attrs[foreign] = "1"
             yield attrs
+    base = {a: (s[1] if len(s) > 1 else "v") for a, s in spec.items() if s[0]}
+    for foreign in elsewhere:
+        attrs = dict(base)
+        attrs[foreign] = "document"
+        yield attrs
 
 
 def enum_rule(ctx, rule_name):
